@@ -62,5 +62,18 @@ structure Preserved (find : Finder) (t : Fmt) (old : Option Maps) (mp : Maps) (c
   featuresViaLib : t = .f1 → ∃ cl fs, split find c.parts.features = .ok cl fs ∧ cl ++ flat fs = c.parts.features ∧
     (DistinctTags fs → c'.parts.features = joinNl (expectedPieces cl fs))
 
+/-- What an operation on the layer set means for the content the getters show: nothing but the layer
+set changes - a renamed layer keeps its glyphs and its place, a new layer is empty and comes last, a
+deleted layer is gone with its glyphs, the order is the one asked for. -/
+def applyFull (c : Full) : LayerOp → Full
+  | .rename o n =>
+    { c with layers := c.layers.map (fun l => if l.name = o then { l with name := n } else l),
+             defaultName := if c.defaultName = o then n else c.defaultName }
+  | .new n => { c with layers := c.layers ++ [⟨n, [], 0⟩] }
+  | .delete n => { c with layers := c.layers.filter (fun l => l.name ≠ n) }
+  | .setDefault n => { c with defaultName := n }
+  | .reorder order => { c with layers := order.filterMap (fun n => c.layers.find? (fun l => l.name = n)) }
+  | .setInfo n b => { c with layers := c.layers.map (fun l => if l.name = n then { l with info := b } else l) }
+
 end Conv
 end DefconModel
